@@ -40,11 +40,62 @@ func staticCallee(c ssa.CallInstruction) *ssa.Function {
 		case *ssa.Function:
 			return b
 		case *ssa.MakeClosure:
+			if m, _ := boundMethod(b); m != nil {
+				return m
+			}
 			f, _ := b.Fn.(*ssa.Function)
 			return f
 		}
 	}
 	return nil
+}
+
+var typeParamBind = map[*types.TypeParam]types.Type{}
+
+// freshContainerHelper: a call to an unexported function of the module whose only result is, on every return, one
+// map it made itself ("makemap"); "" otherwise. What the helper puts into the map is the caller rule's business
+// (it reaches the writes through the helper, with the parameters bound).
+func freshContainerHelper(c *ssa.Call) string {
+	g := staticCallee(c)
+	if g == nil || !inModuleFn(g) || g.Blocks == nil || g.Parent() != nil || g.Object() == nil || g.Object().Exported() || g.Signature.Results().Len() != 1 {
+		return ""
+	}
+	if _, isMap := g.Signature.Results().At(0).Type().Underlying().(*types.Map); !isMap {
+		return ""
+	}
+	var mk ssa.Value
+	for _, r := range returnsOf(g) {
+		m, ok := r.Results[0].(*ssa.MakeMap)
+		if !ok || (mk != nil && mk != ssa.Value(m)) {
+			return ""
+		}
+		mk = m
+	}
+	if mk == nil {
+		return ""
+	}
+	return "makemap"
+}
+
+// boundMethod: a method value `x.m` (go/ssa: a closure over the synthetic wrapper m$bound capturing x) is the
+// method m applied to x.
+func boundMethod(mc *ssa.MakeClosure) (*ssa.Function, ssa.Value) {
+	f, _ := mc.Fn.(*ssa.Function)
+	if f == nil || !strings.HasPrefix(f.Synthetic, "bound method wrapper") || len(mc.Bindings) != 1 || f.Prog == nil {
+		return nil, nil
+	}
+	obj, _ := f.Object().(*types.Func)
+	if obj == nil {
+		return nil, nil
+	}
+	m := f.Prog.FuncValue(obj)
+	if m == nil {
+		return nil, nil
+	}
+	if o := m.Origin(); o != nil {
+		m = o
+	}
+	return m, mc.Bindings[0]
 }
 
 // devirtualised resolves an interface method call whose receiver is (bound to) a freshly boxed concrete value;
@@ -90,7 +141,33 @@ func devirtualised(cc *ssa.CallCommon) (*ssa.Function, ssa.Value) {
 // callArgs: the arguments of a call in the callee's parameter order (receiver first for methods), also for a
 // devirtualised interface call (an unresolved interface call keeps its plain argument list).
 func callArgs(c ssa.CallInstruction) []ssa.Value {
+	args := callArgsRaw(c)
+	if len(paramPerm) > 0 {
+		if f := c.Common().StaticCallee(); f != nil {
+			if o := f.Origin(); o != nil {
+				f = o
+			}
+			if perm := paramPerm[f]; perm != nil && len(perm) == len(args) {
+				out := make([]ssa.Value, len(args))
+				for h, cur := range perm {
+					out[h] = args[cur]
+				}
+				return out
+			}
+		}
+	}
+	return args
+}
+
+func callArgsRaw(c ssa.CallInstruction) []ssa.Value {
 	cc := c.Common()
+	if p, ok := cc.Value.(*ssa.Parameter); ok && !cc.IsInvoke() {
+		if mc, isMC := paramBindV[p].(*ssa.MakeClosure); isMC {
+			if m, recv := boundMethod(mc); m != nil {
+				return append([]ssa.Value{recv}, cc.Args...)
+			}
+		}
+	}
 	if cc.IsInvoke() {
 		if f, recv := devirtualised(cc); f != nil {
 			return append([]ssa.Value{recv}, cc.Args...)
@@ -474,6 +551,13 @@ func fieldName(t types.Type, idx int) string {
 func paramIndex(p *ssa.Parameter) int {
 	for i, q := range p.Parent().Params {
 		if q == p {
+			if perm := paramPerm[p.Parent()]; perm != nil {
+				for h, cur := range perm {
+					if cur == i {
+						return h
+					}
+				}
+			}
 			return i
 		}
 	}
@@ -629,13 +713,16 @@ func descD(v ssa.Value, depth int) string {
 		if m := sortedKeysOf(x); m != nil {
 			return "makeslice" // slices.Sorted(maps.Keys(m)): a locally built (sorted) list of m's keys
 		}
+		if k := freshContainerHelper(x); k != "" {
+			return k // an unexported helper that builds and returns a new map: a map built in this call
+		}
 		if x.Call.Signature().Results().Len() == 1 {
 			if d, ok := computedIntResult(x, 0, depth); ok {
 				return d
 			}
 		}
 		var args []string
-		if x.Call.IsInvoke() {
+		if x.Call.IsInvoke() && len(callArgs(x)) == len(x.Call.Args) {
 			args = append(args, descD(x.Call.Value, depth+1))
 		}
 		for _, a := range callArgs(x) {
@@ -721,6 +808,11 @@ func descD(v ssa.Value, depth int) string {
 			return descD(dst, depth+1)
 		}
 		et := x.Type().(*types.Pointer).Elem()
+		if tp, ok := et.(*types.TypeParam); ok {
+			if b, bound := typeParamBind[tp]; bound {
+				et = b
+			}
+		}
 		if n, ok := et.(*types.Named); ok {
 			et = canonNamed(n)
 		}
@@ -1141,6 +1233,22 @@ func bindCall(c ssa.CallInstruction, g *ssa.Function, f func()) {
 			if a, ok := affineOf(args[i]); ok {
 				paramBindA[p] = a
 			}
+		}
+	}
+	// a generic helper: its type parameters stand for the instantiation's type arguments
+	if inst := cc.StaticCallee(); inst != nil && inst.Origin() != nil && inst.Origin() == g {
+		tps, targs := g.TypeParams(), inst.TypeArgs()
+		for i := 0; i < tps.Len() && i < len(targs); i++ {
+			tp := tps.At(i)
+			oldT, hadT := typeParamBind[tp]
+			typeParamBind[tp] = targs[i]
+			defer func() {
+				if hadT {
+					typeParamBind[tp] = oldT
+				} else {
+					delete(typeParamBind, tp)
+				}
+			}()
 		}
 	}
 	oldOff, hadOff := loopDepthOffset[g]
